@@ -443,3 +443,26 @@ Print Assumptions C02_pure_builtins_blind_to_cells.
 Example C02_pure_arm_table_size :
   length (filter (fun b => match pure_arm_of b with Some _ => true | None => false end) all_builtins) = 32.
 Proof. vm_compute. reflexivity. Qed.
+
+(* The classification of the built-in arms that the parametricity proofs rest on (RelTable.v: which arms apply
+   Value::equals, which apply Value::compare, which call a function value) agrees with the SOURCE TEXT of
+   BuiltInFunction::call (coq/gen/ArmObservers.v, regenerated from blots-core/src/functions.rs on every run;
+   exhaustive over the regenerated built-in table), and every arm outside [calls_back] ignores its callback in the model. *)
+Require Import Blots.gen.ArmObservers Blots.RelTable.
+Theorem C02_arm_observers_match_source : forall b,
+  src_applies_equals b = equals_based b /\ src_applies_compare b = compare_based b /\
+  src_calls_function b = calls_back b.
+Proof. destruct b; repeat split. Qed.
+Check C02_arm_observers_match_source : forall b,
+  src_applies_equals b = equals_based b /\ src_applies_compare b = compare_based b /\
+  src_calls_function b = calls_back b.
+Print Assumptions C02_arm_observers_match_source.
+Theorem C02_other_arms_ignore_callback : forall b, src_calls_function b = false ->
+  forall cb cb' args st, builtin_full cb b args st = builtin_full cb' b args st.
+Proof.
+  intros b H. apply builtin_full_ignores_callback. destruct (C02_arm_observers_match_source b) as (_ & _ & E).
+  rewrite <- E. exact H.
+Qed.
+Check C02_other_arms_ignore_callback : forall b, src_calls_function b = false ->
+  forall cb cb' args st, builtin_full cb b args st = builtin_full cb' b args st.
+Print Assumptions C02_other_arms_ignore_callback.
